@@ -734,7 +734,7 @@ theorem onNewConnectionId_inv (s : Handler) (hI : Inv s.q) (seq rpt : Nat) (cid 
       split
       · rename_i heq; rw [heq] at hp; exact absurd rfl hp
       · rename_i q' heq; rw [heq] at hi; exact ⟨by simp, hi⟩
-      · rename_i q' heq; rw [heq] at hi; exact ⟨by simp, hi⟩
+      · rename_i q' heq; rw [heq] at hi; split <;> exact ⟨by simp, hi⟩
       · rename_i q' start stop t heq
         rw [heq] at hi
         simp only at hi
@@ -767,11 +767,18 @@ theorem tooMany_iff (p a b : Nat) : Gen.ncidTooManyRetired p a b = true ↔ p + 
   simp only [MAXP, Gen.maxPendingRetiredCids, Gen.cidQueueLen, Nat.min_def]
   split <;> omega
 
+theorem retiredFull_iff (p : Nat) : Gen.ncidRetiredArmFull p = true ↔ p + 1 > MAXP := by
+  unfold Gen.ncidRetiredArmFull
+  rw [decide_eq_true_iff]
+  simp only [MAXP, Gen.maxPendingRetiredCids, Gen.cidQueueLen, Nat.min_def]
+  split <;> omega
+
 /-- the transport error (or acceptance) the handler answers with, as a function of the frame and the state -/
 def ncidSpec (s : Handler) (a : Bytes) (seq rpt : Nat) (cid tok : Bytes) : FrameOut :=
   if a.isEmpty then .err Gen.codeProtocolViolation 0
   else if rpt > seq then .err Gen.codeProtocolViolation 1
-  else if seq < s.q.offset then .discarded
+  else if seq < s.q.offset then
+    (if s.pending.length + 1 > MAXP then .err Gen.codeConnectionIdLimitError 4 else .discarded)
   else if seq - s.q.offset ≥ LEN + (rpt - s.q.offset) then .err Gen.codeConnectionIdLimitError 3
   else match (insert s.q seq rpt cid tok).2 with
     | .retired start stop _ =>
@@ -813,6 +820,14 @@ theorem onNewConnectionId_decision (s : Handler) (hI : Inv s.q) (seq rpt : Nat) 
         | errRetired =>
           have := hri.mp rfl
           simp only [this, if_true]
+          by_cases hf : Gen.ncidRetiredArmFull s.pending.length = true
+          · simp only [hf, if_true]
+            rw [retiredFull_iff] at hf
+            simp only [hf, if_true]
+            rfl
+          · simp only [hf, Bool.false_eq_true, if_false]
+            rw [retiredFull_iff] at hf
+            simp only [hf, if_false]
         | errLimit =>
           have := hli.mp rfl
           have h1 : ¬ seq < s.q.offset := by omega
@@ -846,9 +861,10 @@ theorem onNewConnectionId_decision (s : Handler) (hI : Inv s.q) (seq rpt : Nat) 
 
 /-! ### size of `pending.retire_cids` -/
 
-/-- bound on the queue of RETIRE_CONNECTION_ID frames after `d` frames took the "already retired" path -/
-def J (s : Handler) (d : Nat) : Prop :=
-  (s.q.offset = 0 → s.pending.length ≤ MAXP + d) ∧ s.pending.length ≤ MAXP + (LEN - 1) + d
+/-- bound on the queue of RETIRE_CONNECTION_ID frames: MAX_PENDING_RETIRED_CIDS while the initial CID is active, and
+    LEN - 1 more once a server has switched off it (`update_rem_cid`, at most once) -/
+def J (s : Handler) : Prop :=
+  (s.q.offset = 0 → s.pending.length ≤ MAXP) ∧ s.pending.length ≤ MAXP + (LEN - 1)
 
 theorem insert_none_offset (q : CidQueue) (seq rpt : Nat) (cid tok : Bytes) (q' : CidQueue)
     (h : insert q seq rpt cid tok = (q', .none)) : q'.offset = q.offset := by
@@ -890,46 +906,43 @@ theorem insert_retired_offset (q : CidQueue) (hI : Inv q) (seq rpt : Nat) (cid t
     rw [h'.1]; show q.offset < rpt + i; omega
 
 /-- effect of the optional `update_rem_cid` at the end of the arm on the bound -/
-theorem J_after_next (s : Handler) (d : Nat) (hI : Inv s.q) (h0 : s.q.offset = 0 → s.pending.length ≤ MAXP + d)
-    (h1 : s.pending.length ≤ MAXP + (LEN - 1) + d) :
+theorem J_after_next (s : Handler) (hI : Inv s.q) (h0 : s.pending.length ≤ MAXP) :
     ∀ q'' out, next s.q = (q'', out) → s.q.offset = 0 →
-      J { s with q := q'', pending := s.pending ++ (match out with | .ok _ a b => List.range' a (b - a) | _ => []) } d := by
+      J { s with q := q'', pending := s.pending ++ (match out with | .ok _ a b => List.range' a (b - a) | _ => []) } := by
   intro q'' out hn hz0
   have ⟨_, _, hmono, hnone⟩ := next_inv s.q hI
   rw [hn] at hmono hnone
   cases out with
-  | panic => exact ⟨fun _ => by simpa using h0 hz0, by simpa using h1⟩
+  | panic => exact ⟨fun _ => by simpa using h0, by simp only [List.append_nil]; omega⟩
   | none =>
     have := hnone rfl
     simp only at this
     subst this
-    exact ⟨fun _ => by simpa using h0 hz0, by simpa using h1⟩
+    exact ⟨fun _ => by simpa using h0, by simp only [List.append_nil]; omega⟩
   | ok t a b =>
     obtain ⟨ha, hb, hlt, hlt2⟩ := hmono t a b rfl
     simp only at hb
     refine ⟨fun h => ?_, ?_⟩
     · simp only at h; omega
     · simp only [List.length_append, List.length_range']
-      have := h0 hz0
       simp only [LEN_eq] at *; omega
 
+/-- the NEW_CONNECTION_ID arm keeps the queue of pending RETIRE_CONNECTION_ID frames within its bound, whatever the frame -/
 theorem onNewConnectionId_J (s : Handler) (hI : Inv s.q) (seq rpt : Nat) (cid tok : Bytes)
-    (h2 : seq < B) (d : Nat) (hJ : J s d) :
-    J (onNewConnectionId s seq rpt cid tok).1
-      (d + if (onNewConnectionId s seq rpt cid tok).2 = .discarded then 1 else 0) := by
+    (h2 : seq < B) (hJ : J s) : J (onNewConnectionId s seq rpt cid tok).1 := by
   unfold onNewConnectionId
   obtain ⟨a, ha⟩ := active_some s.q hI
   rw [ha]
   simp only
   split
-  · simpa using hJ
+  · exact hJ
   · split
-    · simpa using hJ
+    · exact hJ
     · rename_i hr
       have h1 : rpt ≤ seq := by omega
       have ⟨hp, hi⟩ := insert_inv s.q hI seq rpt cid tok h1 h2
       split
-      · simpa using hJ
+      · exact hJ
       · -- errLimit: queue untouched by construction of `insert`
         rename_i q' heq
         have hq : q' = s.q := by
@@ -941,20 +954,26 @@ theorem onNewConnectionId_J (s : Handler) (hI : Inv s.q) (seq rpt : Nat) (cid to
           simp only [hs, hov1, hl', if_true, if_false, Prod.mk.injEq, and_true] at heq
           exact heq.symm
         subst hq
-        simpa using hJ
-      · rename_i q' heq
+        exact hJ
+      · -- errRetired: the bounded push
+        rename_i q' heq
         have hq := insert_err_state _ _ _ _ _ _ heq
         subst hq
-        obtain ⟨j1, j2⟩ := hJ
-        refine ⟨fun h => ?_, ?_⟩
-        · have := j1 h; simp only [List.length_append, List.length_singleton, if_true]; omega
-        · simp only [List.length_append, List.length_singleton, if_true]; omega
+        split
+        · exact hJ
+        · rename_i hf
+          have hle : s.pending.length + 1 ≤ MAXP := by
+            have : ¬ (s.pending.length + 1 > MAXP) := fun h => hf ((retiredFull_iff _).mpr h)
+            omega
+          refine ⟨fun _ => ?_, ?_⟩
+          · simp only [List.length_append, List.length_singleton]; exact hle
+          · simp only [List.length_append, List.length_singleton]; omega
       · rename_i q' start stop t heq
         rw [heq] at hi
         simp only at hi
         have hgt := insert_retired_offset s.q hI seq rpt cid tok h1 h2 q' start stop t heq
         split
-        · refine ⟨fun h => ?_, by simpa using hJ.2⟩
+        · refine ⟨fun h => ?_, hJ.2⟩
           simp only at h; omega
         · rename_i htm
           have hle : s.pending.length + (stop - start) ≤ MAXP := by
@@ -964,24 +983,18 @@ theorem onNewConnectionId_J (s : Handler) (hI : Inv s.q) (seq rpt : Nat) (cid to
           · rename_i hsrv
             have hz : q'.offset = 0 := by
               simp only [activeSeq, Bool.and_eq_true, beq_iff_eq] at hsrv; exact hsrv.2
-            have hJ' := J_after_next { s with q := q', pending := s.pending ++ List.range' start (stop - start) } d hi
-              (fun _ => by simp only [List.length_append, List.length_range']; omega)
+            have hJ' := J_after_next { s with q := q', pending := s.pending ++ List.range' start (stop - start) } hi
               (by simp only [List.length_append, List.length_range']; omega)
             split
-            · simpa using hJ
+            · exact hJ
             · rename_i q'' t' x y hn
-              have := hJ' q'' _ hn hz
-              simpa using this
+              exact hJ' q'' _ hn hz
             · rename_i q'' hn
               have := hJ' q'' _ hn hz
               simpa using this
           · refine ⟨fun _ => ?_, ?_⟩
-            · simp only [List.length_append, List.length_range']
-              have : (FrameOut.ok = FrameOut.discarded) = False := by simp
-              simp only [this, if_false]; omega
-            · simp only [List.length_append, List.length_range']
-              have : (FrameOut.ok = FrameOut.discarded) = False := by simp
-              simp only [this, if_false]; omega
+            · simp only [List.length_append, List.length_range']; omega
+            · simp only [List.length_append, List.length_range']; omega
       · rename_i q' heq
         rw [heq] at hi
         simp only at hi
@@ -991,22 +1004,15 @@ theorem onNewConnectionId_J (s : Handler) (hI : Inv s.q) (seq rpt : Nat) (cid to
         · rename_i hsrv
           have hz : q'.offset = 0 := by
             simp only [activeSeq, Bool.and_eq_true, beq_iff_eq] at hsrv; exact hsrv.2
-          have hJ' := J_after_next { s with q := q' } d hi (fun h => j1 (by rw [← hoff]; exact h)) j2
+          have hJ' := J_after_next { s with q := q' } hi (j1 (by rw [← hoff]; exact hz))
           split
-          · have hJ0 : J s d := ⟨j1, j2⟩
-            simpa using hJ0
+          · exact ⟨j1, j2⟩
           · rename_i q'' t' x y hn
-            have := hJ' q'' _ hn hz
-            simpa using this
+            exact hJ' q'' _ hn hz
           · rename_i q'' hn
             have := hJ' q'' _ hn hz
             simpa using this
-        · refine ⟨fun h => ?_, ?_⟩
-          · simp only at h
-            have := j1 (by rw [← hoff]; exact h)
-            simpa using this
-          · simpa using j2
-
+        · exact ⟨fun h => j1 (by rw [← hoff]; exact h), j2⟩
 
 /-! ### arbitrary sequences of NEW_CONNECTION_ID frames and packet transmissions at the handler -/
 
@@ -1020,89 +1026,51 @@ def HOp.valid : HOp → Prop
   | .frame seq _ _ _ => seq < B
   | .sent _ => True
 
-/-- runs the handler; second component counts frames answered on the "already retired" path; `none` = panic -/
-def hrun : Handler → Nat → List HOp → Option (Handler × Nat)
-  | s, d, [] => some (s, d)
-  | s, d, .frame seq rpt cid tok :: ops =>
+/-- runs the handler over received frames and packet transmissions; `none` = panic. A rejected frame closes the
+    connection in reality; the run continues (the state then only shrinks or stays), which makes the theorem stronger -/
+def hrun : Handler → List HOp → Option Handler
+  | s, [] => some s
+  | s, .frame seq rpt cid tok :: ops =>
     match onNewConnectionId s seq rpt cid tok with
     | (_, .panic) => none
-    | (s', out) => hrun s' (d + if out = .discarded then 1 else 0) ops
-  | s, d, .sent k :: ops => hrun (sent s k) d ops
+    | (s', _) => hrun s' ops
+  | s, .sent k :: ops => hrun (sent s k) ops
 
-theorem hrun_inv (ops : List HOp) : ∀ (s : Handler) (d : Nat), Inv s.q → J s d → (∀ op ∈ ops, op.valid) →
-    ∃ s' d', hrun s d ops = some (s', d') ∧ Inv s'.q ∧ J s' d' := by
+theorem hrun_inv (ops : List HOp) : ∀ (s : Handler), Inv s.q → J s → (∀ op ∈ ops, op.valid) →
+    ∃ s', hrun s ops = some s' ∧ Inv s'.q ∧ J s' := by
   induction ops with
-  | nil => intro s d hI hJ _; exact ⟨s, d, rfl, hI, hJ⟩
+  | nil => intro s hI hJ _; exact ⟨s, rfl, hI, hJ⟩
   | cons op ops ih =>
-    intro s d hI hJ hv
+    intro s hI hJ hv
     have hv' : ∀ o ∈ ops, o.valid := fun o ho => hv o (by simp [ho])
     cases op with
     | frame seq rpt cid tok =>
       have h2 : seq < B := hv (.frame seq rpt cid tok) (by simp)
       have ⟨hp, hi⟩ := onNewConnectionId_inv s hI seq rpt cid tok h2
-      have hj := onNewConnectionId_J s hI seq rpt cid tok h2 d hJ
+      have hj := onNewConnectionId_J s hI seq rpt cid tok h2 hJ
       cases hr : onNewConnectionId s seq rpt cid tok with
       | mk s' out =>
         rw [hr] at hp hi hj
         simp only at hp hi hj
-        obtain ⟨s2, d2, h, hI2, hJ2⟩ := ih s' _ hi hj hv'
-        refine ⟨s2, d2, ?_, hI2, hJ2⟩
+        obtain ⟨s2, h, hI2, hJ2⟩ := ih s' hi hj hv'
+        refine ⟨s2, ?_, hI2, hJ2⟩
         simp only [hrun, hr]
         cases out <;> first | exact absurd rfl hp | exact h
     | sent k =>
-      have hJ' : J (sent s k) d := by
+      have hJ' : J (sent s k) := by
         obtain ⟨j1, j2⟩ := hJ
         refine ⟨fun h => ?_, ?_⟩
         · have := j1 h; simp only [sent, List.length_take]; omega
         · simp only [sent, List.length_take]; omega
-      obtain ⟨s2, d2, h, hI2, hJ2⟩ := ih (sent s k) d hI hJ' hv'
-      exact ⟨s2, d2, by simp only [hrun, h], hI2, hJ2⟩
+      obtain ⟨s2, h, hI2, hJ2⟩ := ih (sent s k) hI hJ' hv'
+      exact ⟨s2, by simp only [hrun, h], hI2, hJ2⟩
 
-/-- a frame whose sequence number was already retired queues one more RETIRE_CONNECTION_ID, whatever the
-    length of the queue -/
-theorem frame_retired_pushes (s : Handler) (seq rpt : Nat) (cid tok : Bytes) (a : Bytes)
-    (ha : active s.q = some a) (hne : a.isEmpty = false) (hr : rpt ≤ seq) (hs : seq < s.q.offset) :
-    onNewConnectionId s seq rpt cid tok = ({ s with pending := s.pending ++ [seq] }, .discarded) := by
-  unfold onNewConnectionId
-  rw [ha]
-  have h1 : ¬ rpt > seq := by omega
-  have h3 : insert s.q seq rpt cid tok = (s.q, .errRetired) := by unfold insert; simp [hs]
-  simp only [hne, Bool.false_eq_true, if_false, h1, h3]
-
-theorem hrun_flood (cid tok : Bytes) (n : Nat) : ∀ (s : Handler) (d : Nat) (a : Bytes),
-    active s.q = some a → a.isEmpty = false → 0 < s.q.offset →
-    hrun s d (List.replicate n (.frame 0 0 cid tok)) =
-      some ({ s with pending := s.pending ++ List.replicate n 0 }, d + n) := by
-  induction n with
-  | zero => intro s d a _ _ _; simp [hrun]
-  | succ n ih =>
-    intro s d a ha hne h0
-    simp only [List.replicate_succ, hrun]
-    rw [frame_retired_pushes s 0 0 cid tok a ha hne (Nat.le_refl _) h0]
-    simp only [if_true]
-    rw [ih { s with pending := s.pending ++ [0] } (d + 1) a ha hne h0]
-    simp only [List.append_assoc, List.singleton_append, Option.some.injEq, Prod.mk.injEq]
-    exact ⟨trivial, by omega⟩
-
-
-/-- witness family: retire CID 0, then repeat a NEW_CONNECTION_ID for sequence 0 -/
+/-- the former witness of unbounded growth (retire CID 0, then repeat a NEW_CONNECTION_ID for sequence 0): it is now cut
+    off with CONNECTION_ID_LIMIT_ERROR when the queue is full -/
 def retireCidsFlood (n : Nat) : List HOp :=
   .frame 1 1 [2] (List.replicate 16 0) :: List.replicate n (.frame 0 0 [3] (List.replicate 16 0))
 
 def floodInit : Handler := ⟨new [1], [], false⟩
-def floodStart : Handler := (onNewConnectionId floodInit 1 1 [2] (List.replicate 16 0)).1
-
-theorem floodStart_out : onNewConnectionId floodInit 1 1 [2] (List.replicate 16 0) = (floodStart, .ok) := by decide
-theorem floodStart_offset : floodStart.q.offset = 1 := by decide
-theorem floodStart_active : active floodStart.q = some [2] := by decide
-theorem floodStart_pending : floodStart.pending = [0] := by decide
-
-theorem retireCidsFlood_run (n : Nat) : ∃ s' d, hrun floodInit 0 (retireCidsFlood n) = some (s', d) ∧
-    s'.pending.length = n + 1 := by
-  refine ⟨{ floodStart with pending := floodStart.pending ++ List.replicate n 0 }, 0 + n, ?_, ?_⟩
-  · simp only [retireCidsFlood, hrun, floodStart_out]
-    exact hrun_flood [3] (List.replicate 16 0) n floodStart 0 [2] floodStart_active rfl (by rw [floodStart_offset]; decide)
-  · simp [floodStart_pending]
 
 theorem retireCidsFlood_valid (n : Nat) : ∀ op ∈ retireCidsFlood n, op.valid := by
   intro op hop
